@@ -105,7 +105,7 @@ type env struct {
 	patientLeft int
 }
 
-const patientWait = 25 * time.Second
+const patientWait = 30 * time.Second // longer than longMs: a request the proxy only ends by its timeout still gets its reply
 
 // settle is called at the end of a run with the requests that still have no reply: the first runs of a driver in which
 // that happens wait very long for them; it reports whether the silence may be judged.
